@@ -211,6 +211,8 @@ class ShexSerializer(object):
         if self._examples_mode not in [ALL_EXAMPLES, SHAPE_EXAMPLES]:
             return ""
         candidate = self._shape_example_features.shape_example(shape_id=a_shape.class_uri)
+        if candidate is None:  # a shape without instances has no example
+            return ""
         prefixed = prefixize_uri_if_possible(candidate, namespaces_prefix_dict=self._namespaces_dict, corners=False)
         return _EXAMPLE_INSTANCE_TEMPLATE.format( prefixed if prefixed != candidate else f'<{candidate}>')
 
